@@ -80,4 +80,8 @@ def lemmas(E, REG):
                     raise OutOfSubset("order is not a string")
                 goals.append(Goal("lemma:C12:reader-order(%s(m))=writer-order(m);v=%s;section=%s" % (cname, version, section),
                                   list(st.pc), r.t == w.t, "lemma", "lemma:C12"))
+    # wrap on/off switches between the numpy and the normal engine on re-read: only the latter applies the read
+    # substitutions, so "equal data" needs them to leave every numeric token alone
+    from . import _subs_lemma
+    goals += _subs_lemma.lemmas(E, "C12")
     return goals
